@@ -267,7 +267,7 @@ func run(c *core.Ctx) {
 			if t.noQuickE && !th {
 				continue
 			}
-			enumE(t, th || t.full, func(s eSpec) {
+			enumE(t, t.full || (th && !t.noQuickE), func(s eSpec) {
 				nE++
 				if !c.NextMine() {
 					return
@@ -276,7 +276,7 @@ func run(c *core.Ctx) {
 			})
 		}
 		c.Bound("E_truth_table_rows", fmt.Sprint(nE))
-		c.Bound("E_pairs_per_switch", map[bool]string{true: "16 on every tree", false: "16 on P>A and P>a2=A, 6 elsewhere"}[th])
+		c.Bound("E_pairs_per_switch", map[bool]string{true: "16 on every tree except the twice-aliased nested one (6)", false: "16 on P>A and P>a2=A, 6 elsewhere"}[th])
 	}
 
 	// V: value trees
